@@ -530,6 +530,24 @@ func c17CopyBack(w *World, wc *wireCtx, r *Report) {
 					pos = w.pos(fn.Pos())
 				}
 			}
+			// ... or collects the names of such fields for the emitting loop (a helper returning the computed members)
+			forEachInstr(fn, func(b *ssa.BasicBlock, ins ssa.Instruction) {
+				c, ok := ins.(*ssa.Call)
+				if !ok {
+					return
+				}
+				if bi, ok := c.Call.Value.(*ssa.Builtin); !ok || bi.Name() != "append" {
+					return
+				}
+				st, f := wc.m.stateAt(fn, b)
+				if f == nil || st.isTop() || st.empty() {
+					return
+				}
+				if st.K&^(1<<kLength|1<<kCheckSum) == 0 {
+					covered |= st.K
+					pos = w.pos(fn.Pos())
+				}
+			})
 		}
 		for _, k := range []int{kLength, kCheckSum} {
 			key := fmt.Sprintf("%s: the test copies the %s field back from the decoded message before comparing", lang, kindNames[k])
